@@ -58,7 +58,14 @@ def run_case(rs, ctx):
         ctx.count("history_raised")
         return
     B = copy.deepcopy(A)
-    qa = gen.run_ops(A, queries)
+    if backend == "threading" and rs.integers(2):
+        # the worker threads of the queries interleave inside their pure-Python sections (GIL handed over every microsecond)
+        from mon import sched
+        with sched.FastSwitch():
+            qa = gen.run_ops(A, queries)
+        ctx.count("stressed_threaded_query_phases")
+    else:
+        qa = gen.run_ops(A, queries)
     if any(isinstance(x, list) and x and x[0] == "EXC" for x in qa):
         ctx.violation("%s: a query raised: %r" % (gen.cfg_sig(cfg), [x for x in qa if isinstance(x, list) and x[:1] == ["EXC"]][:1]), wit)
         return
